@@ -5,11 +5,23 @@
      -> {"trace": [{"hook", "in", "out"}], "error": null|str, "ops": null|{"module","all","assigns"},
          "views": [...], "checks": {...}}
 
+   {"op": "pipeline", "config": <wire-encoded config_dict>, "kinds": ["shorter", ...], "events": [...]}
+     the same, with the plugin objects constructed by the MODEL of `PluginManager.__init__` / of the plugins'
+     own configuration lookups (Model/PluginManager.lean) from the raw configuration dictionary
+   {"op": "manager", "wrapper": <method of PluginManager>, "plugins": [{"tag": t}|{"none": true}|{"raise": e}|{"base": true}], "obj": str}
+     -> {"result": str, "error": null|str}        the manager loop on synthetic plugins, through the wrapper table
+   {"op": "config", "config": <wire-encoded config_dict>} -> the four configuration lookups
+
    JSON glue only (trusted base item 4); no theorem is stated about this file. -/
 import AriadneModel.Driver.Wire
 import AriadneModel.Model.PluginPipeline
 import AriadneModel.Model.ClientSem
 import AriadneModel.Model.PluginFindings
+import AriadneModel.Model.PluginManager
+import AriadneModel.Model.PluginWhole
+import AriadneModel.Model.PluginWholeE
+import AriadneModel.Model.PluginWholeSE
+import AriadneModel.Model.PluginWholeF
 
 open Lean (Json)
 open Ariadne Ariadne.Py Ariadne.Plugins
@@ -237,6 +249,32 @@ def decPlugin (j : Json) : Except String PState := do
   | "identity" => pure .identity
   | _ => throw s!"unknown plugin kind {k}"
 
+def decKind (j : Json) : Except String PluginKind := do
+  match ← j.getStr? with
+  | "shorter" => pure .shorter
+  | "extract" => pure .extract
+  | "fwd" => pure .fwd
+  | "noReimports" => pure .noReimports
+  | "identity" => pure .identity
+  | k => throw s!"unknown plugin kind {k}"
+
+/-- a resolved entry of `plugins = [...]`: {"class": x} | {"module": [x, ...]} -/
+def decRef {α : Type} (dec : Json → Except String α) (j : Json) : Except String (PluginRef α) := do
+  if let .ok v := j.getObjVal? "class" then return .classPath (← dec v)
+  if let .ok v := j.getObjVal? "module" then return .module (← (← arrOf v).mapM dec)
+  throw "plugin entry: class / module expected"
+
+def decTestPlugin (j : Json) : Except String TestPlugin := do
+  if let .ok v := j.getObjVal? "tag" then return .tag (← v.getStr?)
+  if let .ok v := j.getObjVal? "raise" then return .raise (← v.getStr?)
+  if let .ok _ := j.getObjVal? "none" then return .none
+  if let .ok _ := j.getObjVal? "base" then return .base
+  throw "test plugin: tag / raise / none / base expected"
+
+def encM {α} (f : α → Json) : Except String α → Json
+  | .ok a => Json.mkObj [("ok", f a)]
+  | .error e => Json.mkObj [("error", e)]
+
 def decEvent (j : Json) : Except String Event := do
   let hook ← (← j.getObjVal? "hook").getStr?
   pure { call := { hook := hook, opName := optStr j "op", opKind := optStr j "kind", opSnake := optStr j "snake", caller := optStr j "caller" },
@@ -276,11 +314,41 @@ open Ariadne.ClientSem in
 def handle (j : Json) : Except String Json := do
   let op ← Wire.fieldStr j "op"
   match op with
+  | "manager" =>
+    let w ← Wire.fieldStr j "wrapper"
+    let plugins ← (← arrOf (← j.getObjVal? "plugins")).mapM decTestPlugin
+    let obj ← Wire.fieldStr j "obj"
+    match managerVia testStep w { hook := "" } plugins (.opaque obj) with
+    | .ok (_, y) => pure (Json.mkObj [("result", payloadText y), ("error", .null)])
+    | .error e => pure (Json.mkObj [("result", .null), ("error", e)])
+  | "explorer" =>
+    let entries ← (← arrOf (← j.getObjVal? "entries")).mapM (decRef (fun v => v.getStr?))
+    pure (Json.arr ((getPluginsTypes entries).map Json.str).toArray)
+  | "config" =>
+    let config ← Wire.fieldJ j "config"
+    pure (Json.mkObj [("shorterFragments", encM Json.str (shorterFragmentsModuleName config)),
+      ("generatorFragments", encM Json.str (generatorFragmentsModuleName config)),
+      ("opsModule", encM Json.str (extractOpsModuleName config)),
+      ("asyncClient", encM Json.bool (extractAsyncClient config))])
   | "pipeline" =>
-    let plugins ← (← arrOf (← j.getObjVal? "plugins")).mapM decPlugin
     let events ← (← arrOf (← j.getObjVal? "events")).mapM decEvent
     let customOps := match j.getObjVal? "customOps" with | .ok (.bool b) => b | _ => false
-    let trigs := triggersOf { plugins := plugins, events := events, customOps := customOps }
+    let (plugins, genFrag) ← match j.getObjVal? "config" with
+      | .ok cj => do
+        let config ← Wire.dec cj
+        -- the plugin classes, in the order the MODEL of plugins/explorer.get_plugins_types yields them
+        let kinds ← match j.getObjVal? "entries" with
+          | .ok ej => do pure (getPluginsTypes (← (← arrOf ej).mapM (decRef decKind)))
+          | .error _ => (← arrOf (← j.getObjVal? "kinds")).mapM decKind
+        match initPlugins config kinds, generatorFragmentsModuleName config with
+        | .ok ps, .ok g => pure (ps, g)
+        | .error e, _ => throw s!"model: plugin construction raises {e}"
+        | _, .error e => throw s!"model: settings raise {e}"
+      | .error _ => do
+        let ps ← (← arrOf (← j.getObjVal? "plugins")).mapM decPlugin
+        pure (ps, (optStr j "genFragmentsModule").getD "fragments")
+    let x : Input := { plugins := plugins, events := events, customOps := customOps, genFragmentsModule := genFrag }
+    let trigs := triggersOf x
     let (ps, err) := runPipeline { plugins := plugins } events
     let trace := ps.trace.map (fun (c, x, y) =>
       Json.mkObj [("hook", c.hook), ("op", jopt c.opName), ("in", encPayload x), ("out", encPayload y)])
@@ -299,12 +367,21 @@ def handle (j : Json) : Except String Json := do
       match ps.clientModule? with
       | some m =>
         let pkg : Pkg := { client := m, ops := ps.opsFile? }
-        Json.mkObj [("wellScoped", wellScopedB pkg), ("annScoped", annScopedB m), ("clientInvIn", invIn),
+        Json.mkObj [("wellScoped", wellScopedB pkg), ("annScoped", annScopedB m), ("importsExist", importsExistB x m ps.opsFile?),
+          ("clientInvIn", invIn),
           ("clientInvOut", clientInvB m),
           ("unresolved", Json.arr ((unresolvedNames pkg).map Json.str).toArray)]
       | none => .null
+    -- membership in `Proved_15` (Properties/C15.lean; `proved15B_iff`: this Bool IS `Proved_15`), and its ingredients
+    let genShaped := Ariadne.C15.genShapedS x
+    let genShapedE := Ariadne.C15.genShapedE x
+    let withoutS := plugins.filter (fun p => !p.isShorter)
+    let genShapedSR := Ariadne.C15.genShapedSR withoutS x
+    let genShapedFR := Ariadne.C15.genShapedFR x
+    let proved := Ariadne.C15.proved15B x
     pure (Json.mkObj [("trace", Json.arr trace.toArray), ("error", jopt err), ("ops", encOps ps.opsFile?),
-      ("views", Json.arr views.toArray), ("checks", pkgChecks),
+      ("views", Json.arr views.toArray), ("checks", pkgChecks), ("genShapedS", genShaped), ("genShapedE", genShapedE), ("genShapedSR", genShapedSR), ("genShapedFR", genShapedFR), ("proved15", proved),
+      ("loadsB", Ariadne.C15.loadsB plugins x), ("projOKB", Ariadne.C15.projOKB plugins x), ("validB", Ariadne.C15.validB x),
       ("triggers", Json.arr (trigs.map Json.str).toArray)])
   | "splitlines" =>
     let s ← Wire.fieldStr j "s"
